@@ -187,7 +187,7 @@ func init() {
 			cases = append(cases, apiCase("C06", "api-portion-variable-repeated", []string{sendFixed("USD", "{ $p from @a allowing unbounded overdraft $p from @b allowing unbounded overdraft remaining from @c allowing unbounded overdraft }", "@z")}, map[string][2]string{"p": {"portion", "portion:1/3"}}))
 			cases = append(cases, apiCase("C06", "api-portion-variable-repeated", []string{sendFixed("USD", "@world", "{ $p to @d $p to @e $p to @f $p to @g }")}, map[string][2]string{"p": {"portion", "portion:1/4"}}))
 			cases = append(cases, apiCase("C06", "api-portion-variable", []string{sendFixed("USD", "@world", "{ $p to @d $q to @e }")}, map[string][2]string{"p": {"portion", "portion:2/7"}, "q": {"portion", "portion:5/7"}}))
-			return cases
+			return withObserved(cases, 1)
 		},
 		Bounds: stdBounds(
 			map[string]interface{}{"vector_length": "1..4", "denominators": "{1..10,12,16,100,1000} (thinned), mixed, remaining in every position, portion variables, sums != 1", "amount": "every integer >= 0"},
